@@ -73,6 +73,42 @@ bspline_deriv(const double *knots, double x, int i, int n, unsigned order)
 	return result;
 }
 
+static double
+bspline_span(const double *knots, double x, int span, int i, int n)
+{
+	double result;
+
+	if (n == 0)
+		return (i == span) ? 1.0 : 0.0;
+
+	result = (x - knots[i])*bspline_span(knots, x, span, i, n-1) /
+	    (knots[i+n] - knots[i]);
+	result += (knots[i+n+1] - x)*bspline_span(knots, x, span, i+1, n-1) /
+	    (knots[i+n+1] - knots[i+1]);
+
+	return result;
+}
+
+double
+bspline_deriv_span(const double *knots, double x, int span, int i, int n,
+    unsigned order)
+{
+	double result;
+
+	if (n == 0)
+		return 0.0;
+
+	if (order <= 1) {
+		result = n * bspline_span(knots, x, span, i, n-1) / (knots[i+n] - knots[i]);
+		result -= n * bspline_span(knots, x, span, i+1, n-1) / (knots[i+n+1] - knots[i+1]);
+	} else {
+		result = n * bspline_deriv_span(knots, x, span, i, n-1, order-1) / (knots[i+n] - knots[i]);
+		result -= n * bspline_deriv_span(knots, x, span, i+1, n-1, order-1) / (knots[i+n+1] - knots[i+1]);
+	}
+
+	return result;
+}
+
 /*
  * Evaluates the results of a full spline basis given a set of knots,
  * a position, an order, and a central spline for the position (or -1).
